@@ -175,23 +175,24 @@ PENDING_REASON = "check not built yet in this session (build in progress, see DE
 
 # additions made after the second round of seeded changes (appended to the level text)
 MORE = {
- "C16": " Pushes are biased towards paths the other user has locked (incl. non-LFS lockable blobs around the 1 KiB cutoff); one lock / unlock command may name several paths of which some are refused. Unlock (by path and by id) is also run from the file's own directory (found and now guards D51); a commit-hook campaign covers the first commit of a repository and a merge concluded with `git commit` (D52); pushes may give two paths the same new content (one blob, two names: D27 family).",
+ "C08": " Content far larger than the pipes (250 KB - 1.1 MB raw files and look-alikes) goes through the real filter-process spoken to in Git's order (write everything, then read), with and without the delay capability.",
+ "C16": " Pushes are biased towards paths the other user has locked (incl. non-LFS lockable blobs around the 1 KiB cutoff); one lock / unlock command may name several paths of which some are refused. Unlock (by path and by id) is also run from the file's own directory (found and now guards D51); a commit-hook campaign covers the first commit of a repository and a merge concluded with `git commit` (D52); pushes may give two paths the same new content (one blob, two names: D27 family). Unlock requests may be refused by the server (one shot); the file list of the commit hook is a model (PostCommit.changed) compared with the write bits after root, ordinary and hand-concluded merge commits.",
  "C14": " A directed family checks out many delayed files with lfs.transfer.batchsize 1-3 (several batches finish while Git keeps asking). Object kind `stale`: a file of the wrong size sits at the object's path in local storage (found and now guards D48).",
- "C12": " `--fixup` is judged against Git's effective filter attribute (overriding later lines, nested .gitattributes); a branch and a tag may share a short name. Fixup histories may change their attribute files from one commit to the next (D59, known finding); symbolic links may be among the paths named to --no-rewrite (D60).",
- "C05": " The recent-refs / recent-commits windows are modelled per ref (Pr.retainedRecent; recent_commit_window_is_per_ref, recent_retained_only_from_windows) and compared with prune's own retention trace; families: retention windows (everything pushed, several branches left behind), prune remote different from the default remote (second remote with its own LFS store).",
- "C04": " Smudging into a named file (`git lfs checkout --to` during a conflicted merge, over {no file, same bytes, same length, other version, shorter, longer, pointer}) is compared with Co.smudgeToFile (tofile_independent_of_what_is_there); excluded or skipped paths must remain the committed pointer also when the object is already local or in a reference store (real `git checkout`, with and without GIT_LFS_SKIP_SMUDGE).",
+ "C12": " `--fixup` is judged against Git's effective filter attribute (overriding later lines, nested .gitattributes); a branch and a tag may share a short name. Fixup histories may change their attribute files from one commit to the next (D59, known finding); symbolic links may be among the paths named to --no-rewrite (D60). Fixup histories may adopt LFS midway (later trees need no change); migrate import may be limited to references (--include-ref / --exclude-ref, positional refs with ^exclusions): commits outside the scope must stay the same objects.",
+ "C05": " The recent-refs / recent-commits windows are modelled per ref (Pr.retainedRecent; recent_commit_window_is_per_ref, recent_retained_only_from_windows) and compared with prune's own retention trace; families: retention windows (everything pushed, several branches left behind), prune remote different from the default remote (second remote with its own LFS store). The prune remote may be a local repository (file:// URL, standalone agent) for --verify-remote (D61).",
+ "C04": " Smudging into a named file (`git lfs checkout --to` during a conflicted merge, over {no file, same bytes, same length, other version, shorter, longer, pointer}) is compared with Co.smudgeToFile (tofile_independent_of_what_is_there); excluded or skipped paths must remain the committed pointer also when the object is already local or in a reference store (real `git checkout`, with and without GIT_LFS_SKIP_SMUDGE). Whole directories may be missing from the work tree.",
  "C01": " The round trip is also run through configured pointer-extension pairs of three kinds (size-preserving, shrinking, growing).",
  "C02": " Beyond the basic adapter: models of the custom/standalone adapter and of the pure-SSH adapter (success => final hashes to oid, failure => final unchanged, a padded agent file is refused) tied in process to a scripted transfer agent and a scripted git-lfs-transfer server; a small-step model of ANY number of concurrent downloading processes (private temp files, shared .part and final path: the final path is unchanged or valid in every reachable state) with real concurrent git-lfs processes and a polled final path as its runtime counterpart. No theorem assumes the pre-existing final file to be intact: success_replaces_corrupt_final covers a wrong-content file of any length already sitting at the final path, and the campaign plants such files.",
- "C03": " The pre-push hook's input parser is modelled (PrePush.lean: every created/updated ref line yields its update wherever it stands; deletions are skipped and take nothing away) and tied to commands.prePushRefs through a hidden verif-only command on generated hook inputs; pushes that delete and update refs at once are generated. Remotes are http (fake server that rejects a PUT body not hashing to its oid) or file:// (standalone transfer agent); local objects are damaged (deleted, truncated, extended, bit-flipped) before the push; D37 fixed in /repo. With lfs.allowincompletepush set, a second, server-side fault hits another object of the same push; pushes are split into several batches (lfs.transfer.batchsize).",
- "C06": " TQErr: every errored object is covered by an error the queue reports (errored_objects_are_reported); the model's `reported` flag is compared with Errors() on every run incl. a directed mixed-batch family.",
- "C09": " Reference-store scenarios (hard link and copy, failed link) are part of the enumeration. A custom transfer agent that delivers wrong content of the right size is one of the crash scenarios.",
- "C10": " The credential source `cache` is covered: a model of git-lfs's in-process credentialCacher (every answer carries the key it is asked about, over all op sequences) tied in process to the real cacher, and sessions of several requests on one client with that cache in front of the helper. Location forms: absolute, path-only, network-path (//authority/...) and malformed.",
- "C11": " The consumer side is modelled too: the pattern with which tq.configureCustomAdapters recognises `lfs.customtransfer.<name>.path` keys is regenerated and proved anchored, and no key the allow-list lets through is accepted by it (documented_never_names_an_adapter); a campaign with a hostile repository AND a hostile batch server (which selects whatever adapter the client advertises) found and now guards the repaired defect D38. The flags with which the two .lfsconfig readers mark their sources are regenerated from git/config.go and proved all-true; the end-to-end locations are worktree / index only / HEAD only / HEAD+index / bare repository. End to end, the effective values the consumers see (`git lfs env`: fetchinclude, fetchexclude, skipdownloaderrors, url) are compared with the documented precedence for keys set in .lfsconfig (worktree/index/HEAD) and in Git's local/global configuration at once.",
- "C13": " Anchored (`/dir`) and unanchored exclude patterns with a nested directory of the same name. Staged new versions of tracked paths (one path, two contents) are part of the scenarios. The same pointer blob may sit at two paths, one of them excluded (D49, known finding); after a repairing run the moved objects are damaged a second time and fsck runs again (lfs/bad/<oid> exists), judged directly and against the same model.",
- "C15": " Expiry spelled as expires_at / expires_in (past, inside the 5 s margin, far future, in-wins-over-at), Retry-After as seconds / HTTP-date / garbage, 1-8 workers. Per-object deferrals with different Retry-After values and a directed several-objects-waiting family: the first request naming a deferred object must not start before its ready time.",
+ "C03": " The pre-push hook's input parser is modelled (PrePush.lean: every created/updated ref line yields its update wherever it stands; deletions are skipped and take nothing away) and tied to commands.prePushRefs through a hidden verif-only command on generated hook inputs; pushes that delete and update refs at once are generated. Remotes are http (fake server that rejects a PUT body not hashing to its oid) or file:// (standalone transfer agent); local objects are damaged (deleted, truncated, extended, bit-flipped) before the push; D37 fixed in /repo. With lfs.allowincompletepush set, a second, server-side fault hits another object of the same push; pushes are split into several batches (lfs.transfer.batchsize). Scenario servers may offer a lapsed first upload action per object; how the hook ends is a decision model (PushReport.ok: push_succeeds_iff, allowance_does_not_excuse_other_errors) compared with the exit of pushes with planted faults.",
+ "C06": " TQErr: every errored object is covered by an error the queue reports (errored_objects_are_reported); the model's `reported` flag is compared with Errors() on every run incl. a directed mixed-batch family. Producers may pause between adds (objects added after the queue gave up); a campaign with the real queue, the real custom adapter and an agent whose first start fails (D62); storage 401/403 answers and `authenticated` batch answers with the real basic adapter (D63).",
+ "C09": " Reference-store scenarios (hard link and copy, failed link) are part of the enumeration. A custom transfer agent that delivers wrong content of the right size is one of the crash scenarios. Scenario `refetch`: objects already present are downloaded again.",
+ "C10": " The credential source `cache` is covered: a model of git-lfs's in-process credentialCacher (every answer carries the key it is asked about, over all op sequences) tied in process to the real cacher, and sessions of several requests on one client with that cache in front of the helper. Location forms: absolute, path-only, network-path (//authority/...) and malformed. Storage requests are built and sent by the adapters' own code (hook c06276e) with the action's header name in four spellings.",
+ "C11": " The consumer side is modelled too: the pattern with which tq.configureCustomAdapters recognises `lfs.customtransfer.<name>.path` keys is regenerated and proved anchored, and no key the allow-list lets through is accepted by it (documented_never_names_an_adapter); a campaign with a hostile repository AND a hostile batch server (which selects whatever adapter the client advertises) found and now guards the repaired defect D38. The flags with which the two .lfsconfig readers mark their sources are regenerated from git/config.go and proved all-true; the end-to-end locations are worktree / index only / HEAD only / HEAD+index / bare repository. End to end, the effective values the consumers see (`git lfs env`: fetchinclude, fetchexclude, skipdownloaderrors, url) are compared with the documented precedence for keys set in .lfsconfig (worktree/index/HEAD) and in Git's local/global configuration at once. The lookup consumers use (GitFetcher.Get, hook ca4c635) is compared with Cfg.get on every case, with empty values and keys that Git's own source sets again (git_config_empty_value_wins).",
+ "C13": " Anchored (`/dir`) and unanchored exclude patterns with a nested directory of the same name. Staged new versions of tracked paths (one path, two contents) are part of the scenarios. The same pointer blob may sit at two paths, one of them excluded (D49, known finding); after a repairing run the moved objects are damaged a second time and fsck runs again (lfs/bad/<oid> exists), judged directly and against the same model. One path is tracked by no attribute line; the scan behind the object check is a model of its own (FsScan: first name per blob, then the exclusion — no-false-alarm theorem, partial completeness theorem, D49 witness) compared with which damaged objects fsck names.",
+ "C15": " Expiry spelled as expires_at / expires_in (past, inside the 5 s margin, far future, in-wins-over-at), Retry-After as seconds / HTTP-date / garbage, 1-8 workers. Per-object deferrals with different Retry-After values and a directed several-objects-waiting family: the first request naming a deferred object must not start before its ready time. With the real adapter: actions that run out while objects wait for the only worker (the scripted server reports a request that arrives after the advertised expiry).",
  "C17": " Approve and reject exchanges (credentials as an older Git hands them back, CR / NUL included) and URLs with control bytes in the path under credential.usehttppath are part of the sequences (found and now guards the repaired defect D39). A context machine (ctxRun) covers SEQUENCES of URLs on one credential-helper context: protection follows the current URL's setting (protection_follows_current_url), compared end to end through a fake `git` that records the stdin it is given.",
  "C18": " The fake server spells offered action header names in four ways and may offer Authorization/Content-Type; each offered header must arrive exactly once with the offered value. Servers may change the transfer adapter between the batch answers of one push (tus / omitted / basic): every storage request is judged against the transfer its own answer named, and the answer history goes to the model ApiReq.adapterAfter (adapter_follows_latest_answer, omitted_transfer_means_basic). The unlock URL is modelled (UrlEsc: net/url PathEscape with round-trip, one-segment and injectivity theorems, the per-byte facts decided over all 256 values) and compared with the request the real client sends for lock ids containing URL delimiters; such ids are also among the response corruptions (D53).",
- "C19": " Sequences of 2-5 track/untrack/--lockable/--not-lockable operations over related patterns (rooted/unrooted, globs, directories) are judged after every step against hand-quoted reference patterns by `git check-attr`. Pre-existing files may define lfs macros in nested directories (fact attrFileMacroConditions + obligation), mention the argument without tracking it (lockable alone, -filter, filter=other: D54), track `sub/<pattern>` from above (D58), track through a top-level macro (D55, known), or hold a line longer than 64 KiB (D56); a lockable pattern is tracked again without a lock flag (D50).",
+ "C19": " Sequences of 2-5 track/untrack/--lockable/--not-lockable operations over related patterns (rooted/unrooted, globs, directories) are judged after every step against hand-quoted reference patterns by `git check-attr`. Pre-existing files may define lfs macros in nested directories (fact attrFileMacroConditions + obligation), mention the argument without tracking it (lockable alone, -filter, filter=other: D54), track `sub/<pattern>` from above (D58), track through a top-level macro (D55, known), or hold a line longer than 64 KiB (D56); a lockable pattern is tracked again without a lock flag (D50). Sequences are also compared line by line with the model TrkSeq (track/untrack as operations on the lines of .gitattributes: idempotence, lockable kept without a flag, other patterns untouched).",
  "C20": " core.hooksPath (relative and absolute, decoy hooks left in .git/hooks), commands run from a sub-directory, --skip-repo and --skip-smudge are generated. Hook states include symlinks to user scripts; both configuration scopes are planted and the untargeted scope must never be written. The implicit hook installation of other commands is covered: track / untrack / fsck inside the sequences, and a `git lfs clone` campaign with user hooks planted through init.templateDir or a global core.hooksPath, judged directly and against Hk.installAll; the regenerated list of installHooks call sites is proved to force only in `git lfs update`.",
 }
 for k, v in MORE.items():
